@@ -293,8 +293,10 @@ static void* gp_map_get_elem(
 
     if (slots[i].slot.index == GP_EMPTY)
         return NULL;
-    else if (slots[i].slot.index == GP_IN_USE || memcmp(&slots[i].key, &key, sizeof key) == 0)
+    else if (memcmp(&slots[i].key, &key, sizeof key) == 0)
         return (void*)slots[i].element;
+    else if (slots[i].slot.index == GP_IN_USE) // some other key
+        return NULL;
 
     return gp_map_get_elem(
         slots[i].slot.children, gp_next_length(length), gp_shift_key(key, length), elem_size);
@@ -318,6 +320,8 @@ static bool gp_map_remove_elem(
 {
     const size_t i  = *gp_u128_lo(&key) & (length - 1);
     if (slots[i].slot.index == GP_IN_USE) {
+        if (memcmp(&slots[i].key, &key, sizeof key) != 0)
+            return false; // some other key
         slots[i].slot.index = GP_EMPTY;
         destructor((void*)slots[i].element);
         slots[i].element = NULL;
@@ -333,7 +337,7 @@ static bool gp_map_remove_elem(
         return true;
     }
     return gp_map_remove_elem(
-        slots, gp_next_length(length), gp_shift_key(key, length), elem_size, destructor);
+        slots[i].slot.children, gp_next_length(length), gp_shift_key(key, length), elem_size, destructor);
 }
 
 bool gp_map_remove(GPMap* map, GPUint128 key)
